@@ -89,6 +89,51 @@ type Img struct {
 	H      int    `json:"h"`
 	Pix    []Px   `json:"pix,omitempty"` // row-major; empty = uniform opaque colour
 	Model string `json:"model,omitempty"` // nrgba (default) or rgba (premultiplied storage)
+	// origin of the image handed to the library: its bounds are
+	// (OX,OY)-(OX+W,OY+H), as for a SubImage of a larger picture. The oracle
+	// always reads the origin-0 copy made by build.
+	OX int `json:"ox,omitempty"`
+	OY int `json:"oy,omitempty"`
+}
+
+// lib is the image the library is given: the pixels of build, with bounds
+// that start at (OX,OY), cut out of a larger picture whose other pixels are an
+// opaque colour no generated image contains.
+func (im *Img) lib() image.Image {
+	if im.OX == 0 && im.OY == 0 {
+		return im.build()
+	}
+	outer := image.Rect(im.OX-2, im.OY-2, im.OX+im.W+2, im.OY+im.H+2)
+	inner := image.Rect(im.OX, im.OY, im.OX+im.W, im.OY+im.H)
+	alien := color.NRGBA{255, 0, 255, 255}
+	if im.Model == "rgba" {
+		out := image.NewRGBA(outer)
+		for y := outer.Min.Y; y < outer.Max.Y; y++ {
+			for x := outer.Min.X; x < outer.Max.X; x++ {
+				out.Set(x, y, alien)
+			}
+		}
+		for y := 0; y < im.H; y++ {
+			for x := 0; x < im.W; x++ {
+				p := im.at(x, y)
+				out.Set(im.OX+x, im.OY+y, color.NRGBA{p[0], p[1], p[2], p[3]})
+			}
+		}
+		return out.SubImage(inner)
+	}
+	out := image.NewNRGBA(outer)
+	for y := outer.Min.Y; y < outer.Max.Y; y++ {
+		for x := outer.Min.X; x < outer.Max.X; x++ {
+			out.SetNRGBA(x, y, alien)
+		}
+	}
+	for y := 0; y < im.H; y++ {
+		for x := 0; x < im.W; x++ {
+			p := im.at(x, y)
+			out.SetNRGBA(im.OX+x, im.OY+y, color.NRGBA{p[0], p[1], p[2], p[3]})
+		}
+	}
+	return out.SubImage(inner)
 }
 
 func (im *Img) at(x, y int) Px {
@@ -132,6 +177,8 @@ type FitCase struct {
 	CH    int    `json:"ch"`
 	BW    int    `json:"bw"`
 	BH    int    `json:"bh"`
+	OX    int    `json:"ox,omitempty"` // origin of the image's bounds
+	OY    int    `json:"oy,omitempty"`
 }
 
 func newImage(s *vxdrive.Session, proto string, img image.Image) vaxis.Image {
@@ -207,8 +254,8 @@ func runFit(c FitCase) string {
 	}
 	sessMu.Lock()
 	defer sessMu.Unlock()
-	im := &Img{W: c.PW, H: c.PH}
-	vi := newImage(s, c.Proto, im.build())
+	im := &Img{W: c.PW, H: c.PH, OX: c.OX, OY: c.OY}
+	vi := newImage(s, c.Proto, im.lib())
 	if m := resizeSync(s, c.Proto, vi, c.BW, c.BH, degenerateFit(c.PW, c.PH, c.CW, c.CH, c.BW, c.BH)); m != "" {
 		return fmt.Sprintf("%dx%d px into %dx%d (%s): %s", c.PW, c.PH, c.BW, c.BH, c.Proto, m)
 	}
@@ -276,6 +323,7 @@ func TestFitProtocols(t *testing.T) {
 		}
 		c.PW, c.PH = dim("pw", g.w), dim("ph", g.h)
 		c.BW, c.BH = rapid.IntRange(0, 10).Draw(rt, "bw"), rapid.IntRange(0, 10).Draw(rt, "bh")
+		c.OX, c.OY = genOrigin(rt, sub)
 		cc := Case{Fit: &c}
 		cols0, rows0 := ceilDiv(c.PW, c.CW), ceilDiv(c.PH, c.CH)
 		if cols0 > c.BW || rows0 > c.BH {
@@ -362,7 +410,7 @@ func runPix(c PixCase) string {
 	sessMu.Lock()
 	defer sessMu.Unlock()
 	src := c.Img.build()
-	vi := newImage(s, c.Proto, src)
+	vi := newImage(s, c.Proto, c.Img.lib())
 	if m := resizeSync(s, c.Proto, vi, c.BW, c.BH, false); m != "" {
 		return m
 	}
@@ -589,11 +637,23 @@ func checkFull(cell refterm.Cell, src image.Image, ix, iy, dw, ph int, scaled bo
 	return fmt.Sprintf("background is %s, the average of the covered source pixels is %s", show(!hasBg, bg), strings.Join(wants, "|"))
 }
 
-func genImg(rt *rapid.T, maxW, maxH int) Img {
+// genOrigin: two thirds of the images start at (0,0); the others have the
+// bounds of a sub-image (positive or negative origin).
+func genOrigin(rt *rapid.T, sub string) (int, int) {
+	if rapid.IntRange(0, 2).Draw(rt, "sub-image") != 1 {
+		return 0, 0
+	}
+	harness.R.Label(sub, "image bounds do not start at (0,0)")
+	o := []int{-5, 0, 1, 3, 9, -1, 40}
+	return rapid.SampledFrom(o).Draw(rt, "ox"), rapid.SampledFrom(o).Draw(rt, "oy")
+}
+
+func genImg(rt *rapid.T, sub string, maxW, maxH int) Img {
 	im := Img{W: rapid.IntRange(1, maxW).Draw(rt, "iw"), H: rapid.IntRange(1, maxH).Draw(rt, "ih")}
 	if rapid.Bool().Draw(rt, "premultiplied") {
 		im.Model = "rgba"
 	}
+	im.OX, im.OY = genOrigin(rt, sub)
 	alphas := []int{0, 1, 49, 50, 51, 128, 254, 255, 255, 255}
 	for i := 0; i < im.W*im.H; i++ {
 		a := rapid.SampledFrom(alphas).Draw(rt, "a")
@@ -615,7 +675,7 @@ func TestPixels(t *testing.T) {
 	n := harness.PerShard(harness.Scale(8_000, 400_000))
 	harness.Check(t, sub, n, func(rt *rapid.T) Case {
 		c := PixCase{Proto: rapid.SampledFrom([]string{"half", "full"}).Draw(rt, "proto")}
-		c.Img = genImg(rt, 8, 10)
+		c.Img = genImg(rt, sub, 8, 10)
 		if rapid.IntRange(0, 2).Draw(rt, "fits") != 1 {
 			c.BW, c.BH = rapid.IntRange(c.Img.W, 10).Draw(rt, "bw"), rapid.IntRange(ceilDiv(c.Img.H, 2), 8).Draw(rt, "bh")
 		} else {
@@ -782,7 +842,7 @@ func runPlacements(c PlCase) string {
 		}
 	}
 	for i := range c.Imgs {
-		vi := newImage(s, c.Proto, c.Imgs[i].build())
+		vi := newImage(s, c.Proto, c.Imgs[i].lib())
 		if m := resizeSync(s, c.Proto, vi, c.Boxes[i][0], c.Boxes[i][1], degenerateFit(c.Imgs[i].W, c.Imgs[i].H, c.CW, c.CH, c.Boxes[i][0], c.Boxes[i][1])); m != "" {
 			return m
 		}
@@ -1049,6 +1109,7 @@ func TestPlacements(t *testing.T) {
 		ni := rapid.IntRange(1, 3).Draw(rt, "nimgs")
 		for i := 0; i < ni; i++ {
 			im := Img{W: rapid.IntRange(1, 4*g.w).Draw(rt, "iw"), H: rapid.IntRange(1, 3*g.h).Draw(rt, "ih")}
+			im.OX, im.OY = genOrigin(rt, sub)
 			if c.Proto == "sixel" {
 				// few colours
 				for j := 0; j < im.W*im.H; j++ {
@@ -1139,7 +1200,7 @@ func runContain(c ContainCase) string {
 	defer sessMu.Unlock()
 	s.Vx.Window().Clear()
 	s.Vx.Refresh()
-	vi := newImage(s, c.Proto, c.Img.build())
+	vi := newImage(s, c.Proto, c.Img.lib())
 	defer func() {
 		vi.Destroy()
 		s.Vx.Window().Clear()
@@ -1214,6 +1275,7 @@ func TestContain(t *testing.T) {
 		g := rapid.SampledFrom([]geom{{2, 3}, {8, 16}, {1, 1}}).Draw(rt, "geom")
 		c := ContainCase{Proto: rapid.SampledFrom([]string{"kitty", "sixel"}).Draw(rt, "proto"), CW: g.w, CH: g.h}
 		c.Img = Img{W: rapid.IntRange(1, 6*g.w).Draw(rt, "iw"), H: rapid.IntRange(1, 5*g.h).Draw(rt, "ih")}
+		c.Img.OX, c.Img.OY = genOrigin(rt, sub)
 		c.BW, c.BH = rapid.IntRange(1, 8).Draw(rt, "bw"), rapid.IntRange(1, 6).Draw(rt, "bh")
 		c.Col, c.Row = rapid.IntRange(0, 20).Draw(rt, "col"), rapid.IntRange(0, 10).Draw(rt, "row")
 		c.W, c.H = rapid.IntRange(0, 8).Draw(rt, "w"), rapid.IntRange(0, 6).Draw(rt, "h")
